@@ -4,7 +4,7 @@ Closed model Weights.tla: three NodePools with weights from {unset, 1, 10, 10} (
 (taints, limits, requirements, minValues, not Ready, ...), a catalog whose price order depends on zone / capacity type /
 availability, 2-3 pods; the MECHANISM (weight order, relaxation ladder, per-template filter, lowest admissible index, limits
 charged with the largest capacity, OrderByPrice + Truncate + minValues, FinalizeScheduling, ToNodeClaim) must imply the ORACLE
-of WeightsGuards.tla at every commitment; 18 spec mutations must be rejected; ParallelMin.tla covers the parallel selection.
+of WeightsGuards.tla at every commitment; 20 spec mutations must be rejected; ParallelMin.tla covers the parallel selection.
 TLC then ENUMERATES scenarios (Weights_Gen.cfg); they - plus hand-made cells and seeded explorer scenarios of the `weights`
 alphabet (checks/weights_common.py: the sub-alphabet for which FeasibleFresh is exact) - run through the real
 Provisioner.Schedule + CreateNodeClaims with 1 / 2 / 8 evaluation workers, both minValues policies and a reduced
@@ -49,7 +49,7 @@ def start_model_jobs(run, tier, dev, ex):
     return {
         "mc": ex.submit(mc_chain),
         "cov": ex.submit(run.tlc, "Weights", "Weights_Cov.cfg", workers=2, coverage=True, timeout=1800),
-        "weak": ex.submit(run.tlc, "Weights", "Weights_WeakAll.cfg", workers=2, timeout=3600, heap="4g"),
+        "weak": ex.submit(run.tlc, "Weights", "Weights_WeakAll.cfg", workers=4, timeout=3600, heap="4g"),
         "each": ex.submit(weak_each) if tier["each_weak"] else None,
         "pmin": ex.submit(run.tlc, "ParallelMin", "ParallelMin_MC.cfg", workers=1, timeout=900),
         "pweak": ex.submit(run.tlc, "ParallelMin", "ParallelMin_Weak.cfg", workers=1, expect_violation=True, timeout=900),
